@@ -47,6 +47,10 @@ SURROUND = [
     # a helper BEFORE the target that binds the target's name locally, inside unnamed compound statements
     ["def load(kind):\n    if kind:\n        ConfigClass = None\n        set_cli_args = None\n    for train in ():\n        pass\n"
      "    with open(kind) as f:\n        class ConfigClass(object):\n            z: int = 0\n    return kind", "Z = 4"],
+    # a module docstring with a blank line inside and at its end (first statement when the target does not come first)
+    ['"""Module docstring.\n\nSecond paragraph.\n"""', "Z = 5"],
+    # string literals whose lines consist of blanks / a tab only, in statements sync was not asked to touch
+    ['BANNER = """usage:\n    \n  tool [options]\n\t\n"""', "def helper(a):\n    return \'\'\'first\n  \nlast\'\'\'"],
 ]
 
 
